@@ -117,7 +117,12 @@ func checkInvariants(t *treegen.Tree, res *treegen.Result, fmtSig bool) {
 			res.Failf("negative-length", "%s: range %s", n.Path(), fmtRange(in))
 		}
 		if L := t.ReaderLen(v.RootReader); L >= 0 && in.Len >= 0 {
-			if in.Start < 0 || in.Stop() > L {
+			lo := int64(0)
+			if subSpan != nil && n.BufRoot == t.Root {
+				// decoded from a sub-range of the top buffer: inside that range
+				lo, L = subSpan.Start, subSpan.Start+subSpan.Len
+			}
+			if in.Start < lo || in.Stop() > L {
 				kind := "leaf"
 				if n.IsCompound() {
 					kind = "compound"
